@@ -62,6 +62,8 @@ import XotModel.Lemmas.FparseHistReach
 import XotModel.Lemmas.FparseValsReach
 import XotModel.Lemmas.RepairRoundTrip
 import XotModel.Lemmas.RoundTripParams
+import XotModel.Lemmas.PiColonAcceptedMain
+import XotModel.Lemmas.PiColonWitness
 
 namespace XotModel.Props
 open XotModel XotModel.Gen
@@ -1385,5 +1387,238 @@ example : ∃ ts ts' p, serTokensAtO c01Env { cdataSectionElements := [4], unesc
   C01_roundtrip_cdata c01Env [4] false c01ParamDoc (by decide) _ (by decide)
 
 end Params
+
+end XotModel.Props
+
+/-! # ================================================================================================
+    # PI TARGETS WITH A COLON: the round trip on the widened domain (branch wt-wrap04)
+    # ================================================================================================
+
+  The tokenizer's `consume_name` accepts a colon in a PI target (`<?a:b x?>`), and `Representable` asks an NCName of
+  it: such a tree is accepted by the parser (C03) but lies outside the domain of the theorems above.  The widened
+  domain `RepresentablePi` / `RepresentableFragmentPi` (Lemmas/PiColonDefs.lean: `valueOK` asks of a PI target what
+  `consume_name` accepts, `nameOK`; every other clause as before; it contains `Representable`:
+  `C03_representable_pi_of_representable`) carries the same round trip.  The proofs are GENERATED COPIES
+  (`extract/picolon/gen.py`: the declarations below `C03_accepted_roundtrip` that depend on `valueOK`, copied into the
+  namespace `XotModel.PiColon`, Lemmas/PiColon*.lean).  `Lemmas/PiColonC01.lean` - the copy of THIS file's theorems, used
+  by Props/C03 - imports this file, so the twins cannot be taken from there: the generator writes the same proof texts
+  a second time between the two markers below, in the namespace `XotModel.Props`, `C01_x` renamed `C01_x_pi_colon`
+  (`extract/picolon/check.sh` regenerates and diffs both).  After the markers, by hand: the property as one statement
+  (`C01_roundtrip_pi_colon`, `_fragment`) and the closed witness `<?a:b x?><r><?c:d?></r>`. -/
+
+-- BEGIN GENERATED picolon (extract/picolon/gen.py; do not edit between the markers)
+namespace XotModel.Props
+open XotModel XotModel.Gen
+
+/-- On the round-trip domain no side condition is left. -/
+theorem C01_serialised_is_rendering_representable_pi_colon (env : Env) (t : Tree)
+    (hr : PiColon.RepresentableFragment env t = true) :
+    toXmlString env t [] =
+      (match serTokensTop env t with
+       | .ok ts => .ok (renderTokens ts)
+       | .error e => .err e) := by
+  obtain ⟨henv, _, hn, _⟩ := (PiColon.representableFragment_iff env t).mp hr
+  apply C01_serialised_is_rendering env t
+  · rw [envOK_xmlPrefix env henv]; simp
+  · exact PiColon.nodeOK_declsNamed env t hn
+/-- The tokens of a representable document whose serialisation succeeds satisfy the side
+    conditions of the tokenizer contract in document mode: NCName prefixes and local names,
+    attribute values without `<` and `"`, non-empty text without `<` and `]]>`, XML Chars only,
+    comment and PI conditions, attributes only inside start tags, balanced tags, no two text
+    tokens in a row, comments / PIs around exactly one top-level element. -/
+theorem C01_rendering_lexok_pi_colon (env : Env) (t : Tree) (hr : PiColon.Representable env t = true)
+    (ts : List Token) (h : serTokensTop env t = .ok ts) : LexOK false ts = true :=
+  PiColon.lexOK_document env t hr ts h
+/-- Fragment mode (`parse_fragment`): any well-formed content under the document node. -/
+theorem C01_rendering_lexok_fragment_pi_colon (env : Env) (t : Tree) (hr : PiColon.RepresentableFragment env t = true)
+    (ts : List Token) (h : serTokensTop env t = .ok ts) : LexOK true ts = true :=
+  PiColon.lexOK_fragment env t hr ts h
+theorem C01_serialised_ok_representable_pi_colon {env : Env} {t : Tree} (hr : PiColon.RepresentableFragment env t = true) {s : Str}
+    (hs : toXmlString env t [] = .ok s) : ∃ ts, serTokensTop env t = .ok ts ∧ s = renderTokens ts := by
+  rw [C01_serialised_is_rendering_representable_pi_colon env t hr] at hs
+  cases hts : serTokensTop env t with
+  | ok ts => rw [hts] at hs; cases hs; exact ⟨ts, rfl, rfl⟩
+  | error e => rw [hts] at hs; cases hs
+/-- **C01_build_pi_colon** (`parse` without the tokenizer): the builder, run on the tokens `to_string` renders
+    (any source length, any byte positions: `C02_positions_irrelevant`), returns the original tree
+    and leaves the interning tables unchanged. -/
+theorem C01_build_pi_colon (env : Env) (t : Tree) (hr : PiColon.Representable env t = true) (ts : List Token)
+    (h : serTokensTop env t = .ok ts) (len : Nat) :
+    ∃ p, build .document len env ts none = .ok p ∧ p.tree = t ∧ p.env = env := by
+  simp only [PiColon.Representable, Bool.and_eq_true] at hr
+  obtain ⟨hfrag, hsingle⟩ := hr
+  obtain ⟨ks, rfl, hf⟩ := PiColon.topFacts hfrag h
+  obtain ⟨p0, hb, ht, he⟩ := build_document_spelled_ns hf.he.envBaseNs len
+    (spellTop env (.node .document ks)) (PiColon.spellTop_well hf)
+    (wellFormedTop_of_abstractNs (PiColon.spellTop_abstractTop hf hsingle))
+  rw [spell_tokens env _ ts h] at hb
+  rw [PiColon.spellTop_encode hf] at ht he
+  exact ⟨p0, hb, ht, he⟩
+/-- `parse_fragment` without the tokenizer. -/
+theorem C01_build_fragment_pi_colon (env : Env) (t : Tree) (hr : PiColon.RepresentableFragment env t = true)
+    (ts : List Token) (h : serTokensTop env t = .ok ts) (len : Nat) :
+    ∃ p, build .fragment len env ts none = .ok p ∧ p.tree = t ∧ p.env = env := by
+  obtain ⟨ks, rfl, hf⟩ := PiColon.topFacts hr h
+  obtain ⟨p0, hb, ht, he⟩ := build_fragment_spelled_ns hf.he.envBaseNs len
+    (spellTop env (.node .document ks)) (PiColon.spellTop_well hf)
+  rw [spell_tokens env _ ts h] at hb
+  rw [PiColon.spellTop_encode hf] at ht he
+  exact ⟨p0, hb, ht, he⟩
+/-- **C01_main, strong form** (`parse`): the reparsed tree is the original tree, node for node and id
+    for id — names, attribute sets and values, character data, comments, PIs, namespace declarations
+    on the same elements with the same prefix-to-URI bindings — and the interning tables are
+    unchanged. -/
+theorem C01_main_identical_pi_colon (env : Env) (t : Tree) (hr : PiColon.Representable env t = true)
+    (lex : Str → List Token × Option Nat) (hlex : LexCanon false lex) (s : Str)
+    (hs : toXmlString env t [] = .ok s) :
+    ∃ ts p, lex s = (ts, none) ∧ build .document (strLen s) env ts none = .ok p ∧
+      p.tree = t ∧ p.env = env := by
+  have hfrag : PiColon.RepresentableFragment env t = true := by
+    simp only [PiColon.Representable, Bool.and_eq_true] at hr; exact hr.1
+  obtain ⟨ts0, hser, rfl⟩ := C01_serialised_ok_representable_pi_colon hfrag hs
+  obtain ⟨ts, hl, her⟩ := hlex ts0 (C01_rendering_lexok_pi_colon env t hr ts0 hser)
+  obtain ⟨p0, hb, ht, he⟩ := C01_build_pi_colon env t hr ts0 hser (strLen (renderTokens ts0))
+  obtain ⟨p, hp, h1, h2, _⟩ := C02_positions_irrelevant_ok .document _ (strLen (renderTokens ts0)) env ts0 ts
+    her.1.symm her.2 p0 hb
+  exact ⟨ts, p, hl, hp, by rw [h1, ht], by rw [h2, he]⟩
+/-- **C01_main_fragment, strong form** (`parse_fragment`). -/
+theorem C01_main_fragment_identical_pi_colon (env : Env) (t : Tree) (hr : PiColon.RepresentableFragment env t = true)
+    (lex : Str → List Token × Option Nat) (hlex : LexCanon true lex) (s : Str)
+    (hs : toXmlString env t [] = .ok s) :
+    ∃ ts p, lex s = (ts, none) ∧ build .fragment (strLen s) env ts none = .ok p ∧
+      p.tree = t ∧ p.env = env := by
+  obtain ⟨ts0, hser, rfl⟩ := C01_serialised_ok_representable_pi_colon hr hs
+  obtain ⟨ts, hl, her⟩ := hlex ts0 (C01_rendering_lexok_fragment_pi_colon env t hr ts0 hser)
+  obtain ⟨p0, hb, ht, he⟩ := C01_build_fragment_pi_colon env t hr ts0 hser (strLen (renderTokens ts0))
+  obtain ⟨p, hp, h1, h2, _⟩ := C02_positions_irrelevant_ok .fragment _ (strLen (renderTokens ts0)) env ts0 ts
+    her.1.symm her.2 p0 hb
+  exact ⟨ts, p, hl, hp, by rw [h1, ht], by rw [h2, he]⟩
+/-- **C01_serialises_pi_colon**: for a representable document or fragment, `to_string` succeeds exactly when
+    every namespaced name has a usable prefix in scope — `namesWritable` (Model/Scope.lean), the
+    serialiser's own `MissingPrefix` checks run over the tree with the name stack
+    `XmlSerializer::new` builds: no element in no namespace under a default namespace,
+    `element_fullname` and every `attribute_fullname` answer (C10_error_element / _attribute say when;
+    `create_missing_prefixes` establishes it: C10_repair_document_writable).  The hypothesis
+    `toXmlString … = .ok s` of C01_main is therefore this decidable condition on the tree. -/
+theorem C01_serialises_pi_colon (env : Env) (t : Tree) (hr : PiColon.RepresentableFragment env t = true) :
+    (∃ s, toXmlString env t [] = .ok s) ↔ namesWritable env t [] = some true := by
+  rw [← PiColon.serTokensTop_ok_iff hr, C01_serialised_is_rendering_representable_pi_colon env t hr]
+  cases serTokensTop env t <;> simp [exceptIsOk]
+/-- **C01_main as the property words it**: the reparsed tree is `deep_equal` (Model/Compare.lean,
+    the crate's own comparison; canonical-form equality by C13_iff) to the original.  A corollary of
+    the literal equality `C01_main_identical_pi_colon`, which says more (declarations and prefixes too). -/
+theorem C01_main_deep_equal_pi_colon (env : Env) (t : Tree) (hr : PiColon.Representable env t = true)
+    (lex : Str → List Token × Option Nat) (hlex : LexCanon false lex) (s : Str)
+    (hs : toXmlString env t [] = .ok s) :
+    ∃ ts p, lex s = (ts, none) ∧ build .document (strLen s) env ts none = .ok p ∧
+      deepEqual p.tree t = true := by
+  obtain ⟨ts, p, h1, h2, h3, _⟩ := C01_main_identical_pi_colon env t hr lex hlex s hs
+  refine ⟨ts, p, h1, h2, ?_⟩
+  have hfrag : PiColon.RepresentableFragment env t = true := by
+    simp only [PiColon.Representable, Bool.and_eq_true] at hr; exact hr.1
+  obtain ⟨_, _, hn, _⟩ := (PiColon.representableFragment_iff env t).mp hfrag
+  have hv := PiColon.valid_of_nodeOK t hn
+  rw [h3]
+  exact (deepEqual_iff_canon t t hv hv).mpr rfl
+theorem C01_main_fragment_deep_equal_pi_colon (env : Env) (t : Tree) (hr : PiColon.RepresentableFragment env t = true)
+    (lex : Str → List Token × Option Nat) (hlex : LexCanon true lex) (s : Str)
+    (hs : toXmlString env t [] = .ok s) :
+    ∃ ts p, lex s = (ts, none) ∧ build .fragment (strLen s) env ts none = .ok p ∧
+      deepEqual p.tree t = true := by
+  obtain ⟨ts, p, h1, h2, h3, _⟩ := C01_main_fragment_identical_pi_colon env t hr lex hlex s hs
+  refine ⟨ts, p, h1, h2, ?_⟩
+  obtain ⟨_, _, hn, _⟩ := (PiColon.representableFragment_iff env t).mp hr
+  have hv := PiColon.valid_of_nodeOK t hn
+  rw [h3]
+  exact (deepEqual_iff_canon t t hv hv).mpr rfl
+/-- **C01_roundtrip_identical_pi_colon**: the reparsed tree IS the original tree — node kinds and order, name
+    ids (expanded names), attribute sets and values, character data, comments, PIs, namespace
+    declarations on the same elements with the same prefix-to-URI bindings — the interning tables are
+    unchanged, and `deep_equal` answers `true`. -/
+theorem C01_roundtrip_identical_pi_colon (env : Env) (t : Tree) (hr : PiColon.Representable env t = true) (s : Str)
+    (hs : toXmlString env t [] = .ok s) :
+    ∃ p, parseString .document env s = .ok p ∧ p.tree = t ∧ p.env = env ∧ deepEqual p.tree t = true := by
+  obtain ⟨ts, p, h1, h2, h3, h4⟩ := C01_main_identical_pi_colon env t hr lexDocument C01_lexCanon_document s hs
+  obtain ⟨ts', p', k1, k2, k3⟩ := C01_main_deep_equal_pi_colon env t hr lexDocument C01_lexCanon_document s hs
+  rw [h1] at k1
+  cases k1
+  rw [h2] at k2
+  cases k2
+  refine ⟨p, ?_, h3, h4, k3⟩
+  simp only [parseString, lexMode, h1]
+  exact h2
+theorem C01_roundtrip_fragment_identical_pi_colon (env : Env) (t : Tree) (hr : PiColon.RepresentableFragment env t = true)
+    (s : Str) (hs : toXmlString env t [] = .ok s) :
+    ∃ p, parseString .fragment env s = .ok p ∧ p.tree = t ∧ p.env = env ∧ deepEqual p.tree t = true := by
+  obtain ⟨ts, p, h1, h2, h3, h4⟩ :=
+    C01_main_fragment_identical_pi_colon env t hr lexFragment C01_lexCanon_fragment s hs
+  obtain ⟨ts', p', k1, k2, k3⟩ := C01_main_fragment_deep_equal_pi_colon env t hr lexFragment C01_lexCanon_fragment s hs
+  rw [h1] at k1
+  cases k1
+  rw [h2] at k2
+  cases k2
+  refine ⟨p, ?_, h3, h4, k3⟩
+  simp only [parseString, lexMode, h1]
+  exact h2
+/-- The property as one statement on the tree: a representable document every namespaced name of which
+    has a usable prefix in scope serialises, and the text parses back to the same tree. -/
+theorem C01_roundtrip_writable_pi_colon (env : Env) (t : Tree) (hr : PiColon.Representable env t = true)
+    (hw : namesWritable env t [] = some true) :
+    ∃ s p, toXmlString env t [] = .ok s ∧ parseString .document env s = .ok p ∧ p.tree = t ∧ p.env = env ∧
+      deepEqual p.tree t = true := by
+  have hfrag : PiColon.RepresentableFragment env t = true := by
+    simp only [PiColon.Representable, Bool.and_eq_true] at hr; exact hr.1
+  obtain ⟨s, hs⟩ := (C01_serialises_pi_colon env t hfrag).mpr hw
+  obtain ⟨p, h1, h2, h3, h4⟩ := C01_roundtrip_identical_pi_colon env t hr s hs
+  exact ⟨s, p, hs, h1, h2, h3, h4⟩
+
+end XotModel.Props
+-- END GENERATED picolon
+
+namespace XotModel.Props
+open XotModel XotModel.Gen XotModel.Witness
+
+/-- ⟦C01_roundtrip_pi_colon⟧ (`parse`) A document of the widened domain - PI targets with a colon allowed - every
+    namespaced name of which has a usable prefix in scope serialises, and the text parses back to the SAME tree,
+    tables unchanged; `deep_equal`.  (Twin of `C01_roundtrip_writable`.) -/
+theorem C01_roundtrip_pi_colon (env : Env) (t : Tree) (hr : RepresentablePi env t = true)
+    (hw : namesWritable env t [] = some true) :
+    ∃ s p, toXmlString env t [] = .ok s ∧ parseString .document env s = .ok p ∧ p.tree = t ∧ p.env = env ∧
+      deepEqual p.tree t = true :=
+  C01_roundtrip_writable_pi_colon env t hr hw
+
+/-- ⟦C01_roundtrip_pi_colon_fragment⟧ (`parse_fragment`) The same for any well-formed content under the document
+    node. -/
+theorem C01_roundtrip_pi_colon_fragment (env : Env) (t : Tree) (hr : RepresentableFragmentPi env t = true)
+    (hw : namesWritable env t [] = some true) :
+    ∃ s p, toXmlString env t [] = .ok s ∧ parseString .fragment env s = .ok p ∧ p.tree = t ∧ p.env = env ∧
+      deepEqual p.tree t = true := by
+  obtain ⟨s, hs⟩ := (C01_serialises_pi_colon env t hr).mpr hw
+  obtain ⟨p, h1, h2, h3, h4⟩ := C01_roundtrip_fragment_identical_pi_colon env t hr s hs
+  exact ⟨s, p, hs, h1, h2, h3, h4⟩
+
+/-- The widened domain contains the original one (so the twins say at least what the originals say). -/
+theorem C01_representable_pi_of_representable (env : Env) (t : Tree) (h : Representable env t = true) :
+    RepresentablePi env t = true := by
+  simp only [Representable, RepresentablePi, PiColon.Representable, RepresentableFragment,
+    PiColon.RepresentableFragment, Bool.and_eq_true] at h ⊢
+  exact ⟨⟨⟨h.1.1.1, PiColon.allNodes_of_allNodes env t h.1.1.2⟩, h.1.2⟩, h.2⟩
+
+/-- Non-vacuity OUTSIDE `Representable`, closed: the tree the parser builds from `<?a:b x?><r><?c:d?></r>` (tables of
+    `Xot::new()`) is not `Representable` (the targets `a:b`, `c:d` are no NCNames) but `RepresentablePi`; it
+    serialises to that very text, and the text parses back to the same tree, tables unchanged. -/
+example : ∃ p, parseString .document Env.fresh piColonText = .ok p ∧ Representable p.env p.tree = false ∧
+    RepresentablePi p.env p.tree = true ∧ namesWritable p.env p.tree [] = some true ∧
+    toXmlString p.env p.tree [] = .ok piColonText ∧
+    ∃ p', parseString .document p.env piColonText = .ok p' ∧ p'.tree = p.tree ∧ p'.env = p.env ∧
+      deepEqual p'.tree p.tree = true := by
+  obtain ⟨p, h, _, _, hnr, hr, hs⟩ := piColon_spec
+  have hfrag : RepresentableFragmentPi p.env p.tree = true := by
+    simp only [RepresentablePi, PiColon.Representable, Bool.and_eq_true] at hr; exact hr.1
+  have hw := (C01_serialises_pi_colon p.env p.tree hfrag).mp ⟨_, hs⟩
+  obtain ⟨s', p', h1, h2, h3, h4, h5⟩ := C01_roundtrip_pi_colon p.env p.tree hr hw
+  rw [hs] at h1
+  cases h1
+  exact ⟨p, h, hnr, hr, hw, hs, p', h2, h3, h4, h5⟩
 
 end XotModel.Props
